@@ -664,6 +664,10 @@ done
 {
   printf 'OUT %s\n' "$out"
   while IFS= read -r line; do
+    # since fix 4f2eb74 an entry is `<weight>,<path>` (the tool splits at the FIRST comma)
+    case "$line" in
+      [0-9]*,*) line="${line#*,}" ;;
+    esac
     if [ -f "$line" ]; then printf 'PROFILE %s\n' "$(cat "$line")"; else printf 'PROFILE missing:%s\n' "$line"; fi
   done
   printf 'END\n'
